@@ -1,0 +1,75 @@
+//go:build verif
+
+// Package verifhook holds the observation points used by the external verification harness.
+// It is compiled in only with the "verif" build tag; without the tag every function is an empty stub.
+package verifhook
+
+import (
+	"sync/atomic"
+
+	"github.com/nulab/autog/internal/graph"
+)
+
+// NSInfo describes how one run of the network simplex pivot loop ended.
+type NSInfo struct {
+	Balance int  // 1: phase 2 layering (vertical balance), 2: phase 4 auxiliary graph (horizontal balance)
+	Nodes   int  // number of nodes of the graph the simplex ran on
+	Iters   int  // pivots performed
+	MaxIter int  // pivot budget
+	NegLeft bool // a tree edge with negative cut value was left when the loop ended
+}
+
+var (
+	greedySeed atomic.Pointer[func() (int64, bool)]
+	nsDone     atomic.Pointer[func(NSInfo)]
+	afterPhase atomic.Pointer[func(int, *graph.DGraph)]
+)
+
+// SetGreedySeed installs (or with nil removes) the provider of the seed of the random greedy cycle breaker.
+func SetGreedySeed(fn func() (int64, bool)) {
+	if fn == nil {
+		greedySeed.Store(nil)
+		return
+	}
+	greedySeed.Store(&fn)
+}
+
+// SetNSDone installs (or with nil removes) the observer of the end of the network simplex pivot loop.
+func SetNSDone(fn func(NSInfo)) {
+	if fn == nil {
+		nsDone.Store(nil)
+		return
+	}
+	nsDone.Store(&fn)
+}
+
+// SetAfterPhase installs (or with nil removes) the observer called after each pipeline phase.
+func SetAfterPhase(fn func(int, *graph.DGraph)) {
+	if fn == nil {
+		afterPhase.Store(nil)
+		return
+	}
+	afterPhase.Store(&fn)
+}
+
+// GreedySeed returns the seed to use instead of the wall clock, if one is installed.
+func GreedySeed() (int64, bool) {
+	if fn := greedySeed.Load(); fn != nil {
+		return (*fn)()
+	}
+	return 0, false
+}
+
+// NSDone reports the end of a network simplex pivot loop.
+func NSDone(balance, nodes, iters, maxitr int, negLeft bool) {
+	if fn := nsDone.Load(); fn != nil {
+		(*fn)(NSInfo{balance, nodes, iters, maxitr, negLeft})
+	}
+}
+
+// AfterPhase reports that the given pipeline phase finished on g.
+func AfterPhase(phase int, g *graph.DGraph) {
+	if fn := afterPhase.Load(); fn != nil {
+		(*fn)(phase, g)
+	}
+}
